@@ -1,5 +1,7 @@
 import PMV.Model.ReadOnly
 import PMV.Lemmas.ReadOnly
+import PMV.Lemmas.ReadOnlyObj
+import PMV.Lemmas.ReadOnlyInv
 import PMV.Gen.Guards
 /-
   C08 — read-only objects cannot be changed through the public API.
@@ -25,8 +27,9 @@ example : tableOk [Method.mk "Qube" "set_units" [Path.mk .falsy [.write "_units_
 
 /-- the guarded mutators: everything except `override=True` and the insertion of a NEW derivative -/
 def Guarded (s : State) : Op → Option Nat
-  | .setItem v _ _ => some v
-  | .iop v _ => some v
+  | .setItem v _ _ _ => some v
+  | .setAll v => some v
+  | .iop v _ _ => some v
   | .setUnits v _ false => some v
   | .deleteDeriv v _ false => some v
   | .deleteDerivs v false => some v
@@ -41,6 +44,11 @@ def Guarded (s : State) : Op → Option Nat
   | .requireWritable v => some v
   | _ => none
 
+/-- the class overrides the operator with an unconditional raise (Boolean arithmetic, Matrix `//=`): TypeError -/
+def Unsupported : Op → Bool
+  | .iop _ _ u => u
+  | _ => false
+
 /-- `mutator_rejected`: item assignment, every in-place operator, set_units, delete_deriv(s) and the replacement of an
     existing derivative through insert_deriv(s) -- all without `override=True` -- on a read-only object of a class that
     supports the operation return ValueError and leave the whole state (hence the object's observable state) unchanged.
@@ -48,12 +56,13 @@ def Guarded (s : State) : Op → Option Nat
     `mutator_rejected_state`.) -/
 theorem mutator_rejected (s : State) (op : Op) (v : Nat) (o : Obj)
     (hg : Guarded s op = some v) (ho : s.objs[v]? = some o) (hro : o.ro = true)
-    (hu : o.unitsOk = true) (hd : o.derivsOk = true) :
+    (hu : o.unitsOk = true) (hd : o.derivsOk = true) (hs : Unsupported op = false) :
     step s op = (s, .err .value) := by
   have hrw : requireWritable s v = some .value := by simp [requireWritable, ho, hro]
   cases op <;> simp only [Guarded] at hg <;> try (cases hg)
-  case setItem pos mpos => simp [step, setItem, hrw]
-  case iop f => simp [step, iop, hrw]
+  case setItem pos mpos mn => simp [step, setItem, hrw]
+  case setAll => simp [step, setAll, hrw]
+  case iop f u => simp only [Unsupported] at hs; simp [step, iop, hrw, hs]
   case setUnits w u ov =>
     cases ov <;> simp at hg
     cases hg; simp [step, setUnits, ho, hu, hrw]
@@ -155,28 +164,28 @@ theorem sealed_stays (s : State) (o : Obj) (ops : List Op) (h : Sealed s o) : Se
 
 /-- b = Scalar(np.arange(2.)); v = b[0:1]; b.as_readonly(); v[0] = 99 -/
 def unsealedHistory : List Op :=
-  [.mk 2 2 (some false) true true, .derive 0 .view ⟨[0], [], none⟩ true, .asReadonly 0 true, .setItem 1 [0] [0]]
+  [.mk 2 2 (some false) true true, .derive 0 .view ⟨[0], [], none⟩ true [], .asReadonly 0 true, .setItem 1 [0] [0] 2]
 
 /-- `unsealed_counterexample`: with a view taken BEFORE the freeze the read-only object does change: the item
     assignment through the view is accepted and `b`'s observable state is different afterwards, although `b` is
     read-only and its own arrays are non-writeable. -/
 theorem unsealed_counterexample :
     let s3 := run State.empty (unsealedHistory.take 3)
-    let r := step s3 (.setItem 1 [0] [0])
+    let r := step s3 (.setItem 1 [0] [0] 2)
     (s3.objs[0]?.map (·.ro)) = some true ∧ r.2 = .ok ∧ obs r.1 0 ≠ obs s3 0 := by
   decide
 
 /-- the same history with the view taken AFTER the freeze is rejected (and so is the direct write) -/
 example :
-    let s3 := run State.empty [.mk 2 2 (some false) true true, .asReadonly 0 true, .derive 0 .view ⟨[0], [], none⟩ true,
+    let s3 := run State.empty [.mk 2 2 (some false) true true, .asReadonly 0 true, .derive 0 .view ⟨[0], [], none⟩ true [],
                                .rawRef 1 false]
-    (step s3 (.setItem 1 [0] [0])).2 = .err .value ∧ (step s3 (.write 0 [0])).2 = .err .value := by
+    (step s3 (.setItem 1 [0] [0] 2)).2 = .err .value ∧ (step s3 (.write 0 [0])).2 = .err .value := by
   decide
 
 /-! #### non-mutating operations never fail because the operand is read-only -/
 
 def NonMutating : Op → Option Nat
-  | .derive v _ _ _ => some v
+  | .derive v _ _ _ _ => some v
   | .wod v => some v
   | .clone v _ => some v
   | .copy v _ _ => some v
@@ -192,42 +201,6 @@ theorem nonmutating_never_fails_on_readonly (s : State) (op : Op) (v : Nat) (o :
   all_goals simp [step, objRes, ho]
 
 /-! #### flag and arrays agree on every object a read-only object gives rise to -/
-
-def valNW (s : State) : Val → Prop
-  | .sc _ => True
-  | .arr a => s.arrW a = false
-
-def mskNW (s : State) : Msk → Prop
-  | .sc _ => True
-  | .arr a => s.arrW a = false
-
-/-- the invariant of the property's anchor: flag True implies arrays not writeable -/
-def Agrees (s : State) (o : Obj) : Prop := o.ro = true → valNW s o.vals ∧ mskNW s o.mask
-
-theorem arrW_freeze_self (s : State) (a : Nat) : (s.freeze a).arrW a = false := by
-  simp only [State.arrW, State.freeze, getElem?_upd, if_true]
-  cases s.arrs[a]? <;> simp
-
-theorem arrW_freeze_keep (s : State) (a b : Nat) (h : s.arrW a = false) : (s.freeze b).arrW a = false := by
-  unfold State.arrW at h ⊢
-  unfold State.freeze
-  simp only [getElem?_upd]
-  by_cases hb : b = a
-  · subst hb; cases hx : s.arrs[b]? <;> simp
-  · simp only [hb, if_false]; exact h
-
-theorem valNW_freezeV (s : State) (v : Val) : valNW (s.freezeV v) v := by
-  cases v <;> simp [valNW, State.freezeV, arrW_freeze_self]
-
-theorem mskNW_freezeM (s : State) (m : Msk) : mskNW (s.freezeM m) m := by
-  cases m <;> simp [mskNW, State.freezeM, arrW_freeze_self]
-
-theorem valNW_freezeM (s : State) (v : Val) (m : Msk) (h : valNW s v) : valNW (s.freezeM m) v := by
-  cases v <;> cases m <;> simp_all [valNW, State.freezeM, arrW_freeze_keep]
-
-theorem frozen_pair (s : State) (v : Val) (m : Msk) :
-    valNW ((s.freezeV v).freezeM m) v ∧ mskNW ((s.freezeV v).freezeM m) m :=
-  ⟨valNW_freezeM _ _ _ (valNW_freezeV _ _), mskNW_freezeM _ _⟩
 
 theorem allocObj_get (s : State) (o : Obj) : (s.allocObj o).2.objs[(s.allocObj o).1]? = some o := by
   simp [State.allocObj]
@@ -350,16 +323,172 @@ theorem inv_partial (s : State) (ops : List Op) (o : Obj)
 
 example :
     let s := run State.empty [.mk 2 2 (some false) true true, .asReadonly 0 true]
-    Guarded s (.setItem 0 [0] [0]) = some 0 ∧ (s.objs[0]?.map (·.ro)) = some true ∧
-      step s (.setItem 0 [0] [0]) = (s, .err .value) := by
+    Guarded s (.setItem 0 [0] [0] 2) = some 0 ∧ (s.objs[0]?.map (·.ro)) = some true ∧
+      step s (.setItem 0 [0] [0] 2) = (s, .err .value) := by
   decide
 
 /-- unpickling and fancy indexing of a read-only object with a mask array and a derivative: flags agree everywhere -/
 example :
     let s := run State.empty [.mk 3 3 none true true, .mk 3 3 (some false) true true, .insertDeriv 0 0 1 true,
-      .asReadonly 0 true, .pickle 0 .mixed [(0, .none_)], .derive 0 .copy ⟨[0, 2], [0, 2], none⟩ true]
+      .asReadonly 0 true, .pickle 0 .mixed [(0, .none_)], .derive 0 .copy ⟨[0, 2], [0, 2], none⟩ true []]
     (s.objs.all fun o => !o.ro || (s.valRO o.vals || o.vals matches .sc _) && (s.mskRO o.mask || o.mask matches .sc _))
       = true := by
   decide
+
+/-! #### the frame property on the object store: a call aimed at another object never rebinds a field of a
+     read-only object's record -/
+
+/-- a guarded mutator on a read-only object returns the state unchanged -- also when the class answers TypeError first
+    (no units / no derivatives / operator not supported) -/
+theorem guarded_state_unchanged (s : State) (op : Op) (v : Nat) (o : Obj)
+    (hg : Guarded s op = some v) (ho : s.objs[v]? = some o) (hro : o.ro = true) :
+    (step s op).1 = s := by
+  have hrw : requireWritable s v = some .value := by simp [requireWritable, ho, hro]
+  cases op <;> simp only [Guarded] at hg <;> try (cases hg)
+  case setItem pos mpos mn => simp [step, setItem, hrw]
+  case setAll => simp [step, setAll, hrw]
+  case iop f u => cases u <;> simp [step, iop, hrw]
+  case setUnits w u ov =>
+    cases ov <;> simp at hg
+    cases hg
+    simp only [step, setUnits, ho]
+    split
+    · rfl
+    · simp [hrw]
+  case deleteDeriv w k ov =>
+    cases ov <;> simp at hg
+    cases hg; simp [step, deleteDeriv, hrw]
+  case deleteDerivs w ov =>
+    cases ov <;> simp at hg
+    cases hg; simp [step, deleteDerivs, hrw]
+  case insertDeriv w k d ov =>
+    cases ov <;> simp at hg
+    cases hw : s.objs[w]? with
+    | none => simp [hw] at hg
+    | some ow =>
+      cases hd' : s.objs[d]? with
+      | none => simp [hw, hd'] at hg
+      | some od =>
+        simp [hw, hd'] at hg
+        obtain ⟨hk, rfl⟩ := hg
+        rw [ho] at hw; cases hw
+        simp only [step, insertDeriv, ho, hd']
+        split
+        · rfl
+        · simp [hro, hk]
+  case insertDerivs w kds ov =>
+    cases ov <;> simp at hg
+    cases hw : s.objs[w]? with
+    | none => simp [hw] at hg
+    | some ow =>
+      simp [hw] at hg
+      obtain ⟨hk, rfl⟩ := hg
+      rw [ho] at hw; cases hw
+      have : (kds.any fun kd => hasKey o.derivs kd.1) = true := by
+        simpa [List.any_eq_true] using hk
+      simp [step, insertDerivs, ho, hro, this]
+  case requireWritable => simp [step, hrw]
+
+/-- `ro_record_frame` (the frame property of `step`): whatever is called -- any of the operations of the alphabet, with
+    any arguments, on any OTHER object or array -- a read-only object stays read-only and keeps its `_values_`, `_mask_`,
+    units and derivative table. -/
+theorem ro_record_frame (s : State) (op : Op) (i : Nat) (o : Obj) (ho : s.objs[i]? = some o) (hro : o.ro = true)
+    (hne : Target op ≠ some i) :
+    ∃ o', (step s op).1.objs[i]? = some o' ∧ o'.ro = true ∧ o'.vals = o.vals ∧ o'.mask = o.mask ∧
+      o'.units = o.units ∧ o'.derivs = o.derivs := by
+  obtain ⟨o', ho', k⟩ := (oext_step s op).keep i o ho
+  obtain ⟨h1, h2, h3, h4⟩ := k hro
+  have hlt : i < s.objs.length := (List.getElem?_eq_some_iff.mp ho).1
+  have hnT : ¬ Touch s op i := by
+    intro h
+    cases h with
+    | inl h => exact hne h
+    | inr h => exact absurd hlt (Nat.not_lt.mpr h)
+  exact ⟨o', ho', h1, h2, h3, (h4 hnT).1, (h4 hnT).2⟩
+
+/-- a call that is not one of the documented ways of changing the read-only object `j`: it is aimed elsewhere, or it is
+    a guarded mutator (no `override=True`, no insertion of a new derivative) -/
+def Allowed (s : State) (j : Nat) (op : Op) : Prop := Target op ≠ some j ∨ Guarded s op = some j
+
+/-- a history all of whose calls are `Allowed` for every object of `P` -/
+def HistOK (P : List Nat) : State → List Op → Prop
+  | _, [] => True
+  | s, op :: ops => (∀ j ∈ P, Allowed s j op) ∧ HistOK P (step s op).1 ops
+
+/-- one step: the record of a read-only object survives every allowed call -/
+theorem ro_record_step (s : State) (op : Op) (i : Nat) (o : Obj) (ho : s.objs[i]? = some o) (hro : o.ro = true)
+    (ha : Allowed s i op) :
+    ∃ o', (step s op).1.objs[i]? = some o' ∧ o'.ro = true ∧ o'.vals = o.vals ∧ o'.mask = o.mask ∧
+      o'.units = o.units ∧ o'.derivs = o.derivs := by
+  cases ha with
+  | inl h => exact ro_record_frame s op i o ho hro h
+  | inr h =>
+    rw [guarded_state_unchanged s op i o h ho hro]
+    exact ⟨o, ho, hro, rfl, rfl, rfl, rfl⟩
+
+/-- `ro_record_constant`: along every history of allowed calls a read-only object keeps its whole record -/
+theorem ro_record_constant (P : List Nat) (ops : List Op) : ∀ (s : State) (i : Nat) (o : Obj),
+    i ∈ P → s.objs[i]? = some o → o.ro = true → HistOK P s ops →
+    ∃ o', (run s ops).objs[i]? = some o' ∧ o'.ro = true ∧ o'.vals = o.vals ∧ o'.mask = o.mask ∧
+      o'.units = o.units ∧ o'.derivs = o.derivs := by
+  induction ops with
+  | nil => intro s i o _ ho hro _; exact ⟨o, ho, hro, rfl, rfl, rfl, rfl⟩
+  | cons op ops ih =>
+    intro s i o hi ho hro hok
+    obtain ⟨o1, ho1, r1, v1, m1, u1, d1⟩ := ro_record_step s op i o ho hro (hok.1 i hi)
+    obtain ⟨o2, ho2, r2, v2, m2, u2, d2⟩ := ih (step s op).1 i o1 hi ho1 r1 hok.2
+    exact ⟨o2, ho2, r2, v2.trans v1, m2.trans m1, u2.trans u1, d2.trans d1⟩
+
+theorem obsCore_constant (s s' : State) (o o' : Obj) (he : Ext s s') (hs : Sealed s o)
+    (hv : o'.vals = o.vals) (hm : o'.mask = o.mask) (hu : o'.units = o.units) :
+    obsCore s' o' = obsCore s o := by
+  have hread : ∀ a ∈ ownArrs o, s'.read a = s.read a := by
+    intro a ha
+    obtain ⟨x, hx, hf⟩ := hs a ha
+    obtain ⟨x', hx', hb, hsel, _⟩ := he.arr a x hx
+    have hbuf := (he.fz _ hf).2
+    unfold State.read
+    rw [hx', hx]
+    simp only [hb, hsel, hbuf]
+  unfold obsCore
+  rw [hv, hm, hu]
+  cases hvv : o.vals with
+  | sc st =>
+    cases hmm : o.mask with
+    | sc b => rfl
+    | arr a => simp only [valCells]; rw [hread a (by simp [ownArrs, hmm])]
+  | arr av =>
+    have h1 := hread av (by simp [ownArrs, hvv])
+    cases hmm : o.mask with
+    | sc b => simp only [valCells, h1]
+    | arr a => simp only [valCells, h1]; rw [hread a (by simp [ownArrs, hmm])]
+
+/-- `sealed_constant` (FULL): a read-only object that is sealed, with read-only sealed derivatives, has the same
+    observable state -- values, mask, units, and the same of every derivative -- after EVERY history of calls and direct
+    array writes, as long as no call is one of the documented exceptions (`override=True`, insertion of a new derivative)
+    aimed at the object itself or at one of its derivative objects.  No bound on the history or on what else happens. -/
+theorem sealed_constant (s : State) (i : Nat) (o : Obj) (ops : List Op)
+    (ho : s.objs[i]? = some o) (hro : o.ro = true) (hs : Sealed s o)
+    (hd : ∀ kd ∈ o.derivs, ∃ d, s.objs[kd.2]? = some d ∧ d.ro = true ∧ Sealed s d)
+    (hok : HistOK (i :: o.derivs.map (·.2)) s ops) :
+    obs (run s ops) i = obs s i := by
+  have he := ext_run ops s
+  obtain ⟨o', ho', _, hv, hm, hu, hdv⟩ :=
+    ro_record_constant _ ops s i o (List.mem_cons_self ..) ho hro hok
+  unfold obs
+  rw [ho', ho]
+  dsimp only
+  rw [hdv]
+  have hcore := obsCore_constant s (run s ops) o o' he hs hv hm hu
+  rw [hcore]
+  congr 2
+  apply List.map_congr_left
+  intro kd hkd
+  obtain ⟨d, hdo, hdro, hds⟩ := hd kd hkd
+  obtain ⟨d', hd', _, dv, dm, du, _⟩ :=
+    ro_record_constant _ ops s kd.2 d (List.mem_cons_of_mem _ (List.mem_map.mpr ⟨kd, hkd, rfl⟩)) hdo hdro hok
+  rw [hd', hdo]
+  simp only [Option.map_some]
+  rw [obsCore_constant s (run s ops) d d' he hds dv dm du]
 
 end PMV.ReadOnly
